@@ -181,8 +181,35 @@
         text node, or that d has an empty text child (for which the relation `reads` of (f) does not determine the
         tree that is read back).  No hypothesis about carriage returns: the theorem speaks about the rendering itself
         (WF16 concerns literal CRs, which [render] writes in markup white space only).
-    Not proved: (n) for documents WITH a document type declaration, and renderings with carriage returns in white
-    space for (m).
+        Rungs (ii), (iii), DOCUMENTS WITH A DOCUMENT TYPE DECLARATION:
+        [dom_view_is_infoset_doctype_partial] -- for every typed document pd that the parser returns for a string and
+        XmlDocument::new accepts (the model of both), outside D04, under [dtd_hyps] on the tree the specification
+        reads -- no external subset or standalone="yes" (WF24), SIMPLE entity values (no markup in replacement text:
+        D13, WF23), no declaration of a predefined entity name, distinct general-entity names and distinct notation
+        names (WF22), public identifiers in normalized form (WF17) --: [check_doc (x_doc pd) = inr root], and when the
+        expanded tree is good ([tree_good (attrs_okb subset) root]: no reference to an external parsed entity; at
+        every element no #REQUIRED definition without a specified attribute (D36) and no default value for a
+        SPECIFIED namespace declaration (finding of this round: Element::attributes tests the defaults against
+        attributes_specified(), which leaves the namespace declarations out, and lists `xmlns:p` twice)),
+            dom_view false doc = doc_tokens (x_doc pd) root      dom_view true doc = doc_tokens2 (x_doc pd) root.
+        Notations and unparsed entities (Rust's sort of (name, token) rows = the specification's sort by name),
+        PIs of the internal subset, identifiers; general entities referenced in content
+        (XmlUnexpandedEntityReference::value = the character data the specification gets by re-reading the
+        replacement text, nested references to any depth, the induction of [expand_good] with values) and in
+        attribute values (attr_value_from_name with 3.3.3 normalization = [av_value]); attribute-list declarations:
+        first definition of a name over all declarations of the element type, declared types (tokenized
+        normalization = [type_norm]), defaults (built against the entities declared before them, expanded against
+        the whole table), names compared as (prefix, local part) pairs on one side and as strings on the other.
+        [C01_dom_view_is_denote_partial] -- THE MODEL HALF OF [parse_render]: for every valid abstract document d, every oracle c,
+            no_predefined_redeclared d -> accepted_profile d -> Known_C01 d = false ->
+            from_raw (render d c) = OOk ([], doc) -> dom_view true doc = denote d /\ dom_view false doc = denote d
+        where [Known_C01 d = Known_WF14 d || Known_ATTR d] is decidable on d: [Known_ATTR d] says that the canonical
+        tree of d is not good in the sense above (D36 or the doubled namespace declaration).  The other listed findings
+        need no clause: [valid] already demands entity values without markup (D13, WF23), distinct entity names
+        (WF22) and normalized public identifiers (WF17); [accepted_profile] excludes the external subset (WF24);
+        [render] writes no literal carriage return into character data, attribute values, comments or PIs (WF16).
+    Not proved: renderings with carriage returns in white space for (m) (they are covered by (n) on the side of
+    the model, which does not go through [infoset_of_string]); (n) for strings whose entity values hold markup.
     This is covered by checks/C01.py, which evaluates wf (render d c) and
     infoset_of_string (render d c) = denote d with the extracted functions on every generated case,
     compares with the real crates, and cross-checks the specification against expat. *)
@@ -196,7 +223,8 @@ From XmlRs Require Model.ParseActions Model.Info Proofs.ParseInvElem Proofs.XmlW
   Proofs.XmlWFSyntaxConvDtdElem Proofs.XmlWFSyntaxConvDtdDoc Proofs.XmlWFSyntaxConvDtdCheck
   Proofs.XmlWFSyntaxRenderDtd Proofs.XmlWFSyntaxRenderDtdElem Proofs.XmlWFSyntaxRenderDtdDoc
   Proofs.XmlWFSyntaxRenderDtdCheck Proofs.XmlWFSyntaxRenderDtdWf Proofs.XmlWFSyntaxRenderTokens
-  Model.DomView Proofs.DomViewBase Proofs.DomViewDoc Proofs.DomViewRender Proofs.DomViewC01.
+  Model.DomView Proofs.DomViewBase Proofs.DomViewDoc Proofs.DomViewRender Proofs.DomViewC01
+  Proofs.DomViewElem Proofs.DomViewDtd Proofs.DomViewDtdDoc Proofs.DomViewRenderDtd Proofs.XmlWFSyntaxDtdDoc Proofs.ParseInvDoc.
 Import ListNotations.
 
 (** every oracle is an admissible choice of surface forms *)
@@ -486,6 +514,59 @@ Proof.
   intros d c doc Hv Hdt H. destruct (DomViewC01.dom_view_render_nodoctype d c doc Hv Hdt H) as (H1 & _ & H3). split; assumption.
 Qed.
 
+
+Theorem dom_view_is_infoset_doctype_partial : forall (pd : ParseActions.pdoc) (doc : Info.document) (dd : ParseActions.decl_doc),
+  ParseInvDoc.p_doc_ok pd -> XmlWFSyntaxDtdDoc.ok_doc pd = true -> Info.build_document pd = Info.IOk doc ->
+  ParseActions.pr_declaration_doc (ParseActions.d_prolog pd) = Some dd ->
+  DomViewDtdDoc.dtd_hyps (e_must_declare (doc_env (XmlWFSyntaxDtdDoc.x_doc pd))) (option_map XmlWFSyntaxDtd.x_extid (ParseActions.dd_external_id dd))
+                         (XmlWFSyntaxDtdDoc.x_subset (ParseActions.dd_internal_subset dd)) ->
+  exists root, check_doc (XmlWFSyntaxDtdDoc.x_doc pd) = inr root /\
+    (DomViewElem.tree_good (DomViewDtd.attrs_okb (XmlWFSyntaxDtdDoc.x_subset (ParseActions.dd_internal_subset dd))) root = true ->
+     DomView.dom_view false doc = doc_tokens (XmlWFSyntaxDtdDoc.x_doc pd) root /\
+     DomView.dom_view true doc = DomViewBase.doc_tokens2 (XmlWFSyntaxDtdDoc.x_doc pd) root).
+Proof. exact DomViewDtdDoc.view_doctype_pd. Qed.
+
+Theorem C01_dom_view_is_denote_partial : forall (d : adoc) (c : choices) (doc : Info.document),
+  valid d = true -> no_predefined_redeclared d = true -> accepted_profile d = true -> DomViewC01.Known_C01 d = false ->
+  Info.from_raw (render d c) = Info.OOk ([], doc) ->
+  DomView.dom_view true doc = Infoset.denote d /\ DomView.dom_view false doc = Infoset.denote d.
+Proof.
+  intros d c doc Hv Hn Ha Hk H. unfold DomViewC01.Known_C01 in Hk. apply orb_false_iff in Hk. destruct Hk as [Hk1 Hk2].
+  unfold no_predefined_redeclared in Hn. unfold accepted_profile in Ha. destruct (a_doctype d) as [dt|] eqn:Hdt.
+  - apply andb_true_iff in Ha. destruct Ha as [H1 H2].
+    destruct (DomViewC01.dom_view_render_dtd d c dt doc Hv Hdt Hn H1 H2 H Hk2) as (R1 & _ & R3). split; [exact (R3 Hk1)|exact R1].
+  - destruct (DomViewC01.dom_view_render_nodoctype d c doc Hv Hdt H) as (R1 & _ & R3). split; [exact (R3 Hk1)|exact R1].
+Qed.
+
+(* the excluded shapes exist: a #REQUIRED attribute that is not written (D36) *)
+Definition ex_required : adoc :=
+  {| a_version := None; a_encoding := None; a_standalone := None; a_misc1 := [];
+     a_doctype := Some {| ad_name := [97]%N; ad_pub := None; ad_sys := None;
+       ad_subset := Some [ADAttlist [97]%N [([107]%N, ATCData, DfRequired)]] |};
+     a_misc2 := []; a_root := AElem [97]%N [] []; a_misc3 := [] |}.
+(* a namespace declaration that is specified and has a default *)
+Definition ex_nsdefault : adoc :=
+  {| a_version := None; a_encoding := None; a_standalone := None; a_misc1 := [];
+     a_doctype := Some {| ad_name := [97]%N; ad_pub := None; ad_sys := None;
+       ad_subset := Some [ADAttlist [97]%N [([120;109;108;110;115;58;112]%N, ATCData, DfValue false [IText [117]%N])]] |};
+     a_misc2 := []; a_root := AElem [97]%N [([120;109;108;110;115;58;112]%N, [IText [118]%N])] []; a_misc3 := [] |}.
+
+Example dom_view_nonvacuous :
+  valid ex_adoc_dtd = true /\ no_predefined_redeclared ex_adoc_dtd = true /\ accepted_profile ex_adoc_dtd = true
+  /\ DomViewC01.Known_C01 ex_adoc_dtd = false
+  /\ (valid ex_required = true /\ DomViewC01.Known_C01 ex_required = true)
+  /\ (valid ex_nsdefault = true /\ DomViewC01.Known_C01 ex_nsdefault = true).
+Proof. repeat split; vm_compute; reflexivity. Qed.
+
+(* on the two excluded shapes the statement fails: the model (and the real crates) expose another information set *)
+Theorem C01_dom_view_refuted_required : exists doc, Info.from_raw (render ex_required (fun _ => 0%N)) = Info.OOk ([], doc)
+  /\ DomView.dom_view true doc <> Infoset.denote ex_required.
+Proof. eexists. split; [vm_compute; reflexivity|]. vm_compute. intros E. discriminate E. Qed.
+
+Theorem C01_dom_view_refuted_nsdefault : exists doc, Info.from_raw (render ex_nsdefault (fun _ => 0%N)) = Info.OOk ([], doc)
+  /\ DomView.dom_view true doc <> Infoset.denote ex_nsdefault.
+Proof. eexists. split; [vm_compute; reflexivity|]. vm_compute. intros E. discriminate E. Qed.
+
 Example dom_view_nodoctype_nonvacuous :
   valid ex_adoc = true /\ a_doctype ex_adoc = None /\ DomViewRender.Known_WF14 ex_adoc = false
   /\ exists doc, Info.from_raw (render ex_adoc (fun p => (7 * N.of_nat (length p)) mod 5)%N) = Info.OOk ([], doc)
@@ -534,3 +615,7 @@ Print Assumptions dom_view_is_infoset_nodoctype_partial.
 Print Assumptions merged_view_without_empty_text.
 Print Assumptions merged_view_drops_to_infoset.
 Print Assumptions C01_dom_view_is_denote_nodoctype_partial.
+Print Assumptions dom_view_is_infoset_doctype_partial.
+Print Assumptions C01_dom_view_is_denote_partial.
+Print Assumptions C01_dom_view_refuted_required.
+Print Assumptions C01_dom_view_refuted_nsdefault.
